@@ -1,9 +1,9 @@
 #!/bin/sh
 # usage: tryrefactor.sh <diff> : apply a diff to a scratch copy of /repo, build, run all checks, print violated rules
 set -u
-D=$(mktemp -d /tmp/tryref.XXXXXX)
+D=$(mktemp -d /tmp/tryref.XXXXXX); P=$(readlink -f "$1")
 rsync -a --exclude .git --exclude /dirk /repo/ $D/repo/
-( cd $D/repo && git apply --whitespace=nowarn "$1" 2>/dev/null || patch -p1 -s --no-backup-if-mismatch -i "$1" ) || { echo "PATCH FAILED"; rm -rf $D; exit 2; }
+( cd $D/repo && git apply --whitespace=nowarn "$P" 2>/dev/null || patch -p1 -s --no-backup-if-mismatch -i "$P" ) || { echo "PATCH FAILED"; rm -rf $D; exit 2; }
 export GOFLAGS=-mod=mod GOPROXY=off GOSUMDB=off GOTOOLCHAIN=local; unset GOWORK
 ( cd $D/repo && go build ./... ) || { echo "BUILD FAILED"; rm -rf $D; exit 2; }
 mkdir -p $D/ev
